@@ -587,7 +587,8 @@ def run_cases(prop_id: str, module: str, cases: List[Case], tier: str, seed: int
             if tst == "refuted":
                 # the twin's witness, run on the real code without tracing, must satisfy the property
                 rep = t.get("replay") or {}
-                t["witness_ok"] = bool(rep.get("ran") and rep.get("value") is False)
+                # (the replay runs the harness in main mode: the property must hold on the witness)
+                t["witness_ok"] = bool(rep.get("ran") and rep.get("value") is True)
             elif tst == "confirmed" and any(_matches(e, c) and e.get("when") for e in known):
                 # every input of this case lies inside a listed known-finding region: nothing is
                 # left to check here (the case is not counted as non-trivial)
